@@ -253,8 +253,12 @@ class C13(Property):
             'rejected call or the signature was modified, or (session) at least two steps with a function built; '
             'distinct = distinct case.')
     ASSUMPTIONS = ['no positional-only parameters; the wrapped object is a plain function (no partial / '
-                   'classmethod / builtin); names are abstract in the model - parameters / functions spelled like '
-                   'the builder\'s own exec-namespace names (_call, _func) are exercised by the generators',
+                   'classmethod / builtin); names are numbers in the model; the exec namespace and update_wrapper\'s '
+                   'call-name loop are modelled for _call / __call / _func as parameter and function names (the '
+                   'function name travels in the line as an `F<k>` token)',
+                   'the annotation of a parameter that the SAME request removes and adds again (injected and expected, '
+                   'remove_arg then add_arg) is not constrained by the statement: both sides print `*` for it, also in '
+                   'everything built from that function later in a session',
                    'values (defaults, annotations, arguments) are compared by identity',
                    'source text is modelled at the granularity of comma-separated items; the text of '
                    'get_sig_str / get_invocation_str is compared character by character via __source__',
